@@ -345,6 +345,24 @@ func TestC15(t *testing.T) {
 					probes = append(probes, n+"x", oracle0(d.Fanout)+n)
 				}
 				probes = append(probes, "", "0", "00", "000")
+				// a transient load failure during the first Length() must not leave a wrong memoised count behind
+				if _, shards, _, err := walkerFor(st).HamtWalk(root); err == nil && len(shards) > 2 {
+					ls := st.LinkSystem(false)
+					raw, _ := loadRaw(ls, root)
+					for k := 1; k <= min(len(shards)-1, 10); k++ {
+						n2, err := reify(ls, raw)
+						if err != nil {
+							break
+						}
+						st.FailReadAt = k
+						st.FailErr = store.ErrInjected
+						st.ResetLog()
+						c.Guard("Length with transient fault", func() { n2.Length() })
+						st.ClearFaults()
+						c.Count("transient_length_faults", 1)
+						checkMapContract(c, fmt.Sprintf("fanout-%d sharded directory (by the %s) after load #%d failed once during the first Length()", d.Fanout, writer, k), n2, nil, len(names)+8)
+					}
+				}
 				c.Count("sharded_dirs", 1)
 				pairs := checkMapContract(c, fmt.Sprintf("fanout-%d sharded directory of %d entries written by the %s", d.Fanout, len(names), writer), node, probes, len(names)+8)
 				if pairs != len(names) {
